@@ -18,7 +18,7 @@ CORE_MODULES = [
     "physt._bin_utils", "physt._util", "physt.config", "physt.statistics", "physt.binnings", "physt._construction",
     "physt.histogram_base", "physt.histogram1d", "physt.histogram_nd", "physt.histogram_collection", "physt.types",
     "physt.special_histograms", "physt._facade", "physt.io.version", "physt.io.util", "physt.io.json", "physt.io",
-    "physt.plotting.common", "physt.plotting.ascii", "physt.plotting", "physt.plotting.matplotlib", "physt.plotting.plotly",
+    "physt.plotting.common", "physt.plotting.ascii", "physt.plotting", "physt.plotting.matplotlib", "physt.plotting.plotly", "physt.compat.pandas", "physt.compat.dask", "physt.compat.xarray",
 ]
 
 _loaded = False
@@ -41,11 +41,14 @@ def load_symbolic(extra=()):
     if not _loaded:
         assert "numpy" not in sys.modules or sys.modules["numpy"] is symnp, "real numpy already imported"
         symnp.install()
-        for blocked in ("astropy", "pandas", "dask", "xarray", "polars", "folium", "xtermcolor", "scipy", "seaborn"):
+        for blocked in ("astropy", "polars", "folium", "xtermcolor", "scipy", "seaborn"):
             sys.modules.setdefault(blocked, None)
         from . import stubpkgs
+        from .stubpkgs import dask_xarray_stub, pandas_stub
 
         stubpkgs.install()
+        pandas_stub.install()
+        dask_xarray_stub.install()
         pkg = types.ModuleType("physt")
         pkg.__path__ = [os.path.join(REPO_SRC, "physt")]
         pkg.__version__ = _read_version()
